@@ -28,6 +28,8 @@ CheckText(e) ==
   ELSE IF e.reerr # "" THEN "reparse-error"
   ELSE IF ~Same(e.re, e.g) THEN "reparse-differs"
   ELSE IF ~Same(e.viawkb, e.g) THEN "wkt-vs-wkb"
+  \* the default, validating reader must accept what the specification knows to be valid (AbstractGeom!KnownValid)
+  ELSE IF KnownValid(e.g) /\ e.valerr # "" THEN "validating-reader-rejects-a-valid-geometry"
   ELSE "ok"
 
 CheckParse(e) ==
